@@ -177,7 +177,9 @@ type valGen struct {
 	big    bool // allow one very long string
 	errcls bool // allow an ill-formed construct (error class)
 	full   bool // every optional member present, every list with one or two elements (deep, complete values)
-	dflt   *int64
+	// withUnsupported: with full, members of OBJECT IDENTIFIER and open type are present too (the value must be refused)
+	withUnsupported bool
+	dflt            *int64
 }
 
 var intPool = func() []int64 {
@@ -379,7 +381,7 @@ func (g *valGen) fill(v reflect.Value, p rparams, depth int) {
 					for ft.Kind() == reflect.Ptr {
 						ft = ft.Elem()
 					}
-					present = ft != oidType && !fp.open
+					present = g.withUnsupported || (ft != oidType && !fp.open)
 				} else if g.spend() {
 					den := 2 + depth
 					present = rapid.IntRange(0, den-1).Draw(g.t, "present") == 0
